@@ -482,7 +482,7 @@ func URLRequest(t *rapid.T, ss *SchemaSpec, o URLOpts) *URLReq {
 			r.Params = append(r.Params, QParam{"include", strings.Join(items, ",")})
 		case "page":
 			key := rapid.SampledFrom([]string{"size", "number", "size", "number", "other", "a b", "cursor"}).Draw(t, "pagekey")
-			val := rapid.SampledFrom([]string{"0", "1", "10", "007", "-3", "+5", "abc", "9223372036854775808", " 5"}).Draw(t, "pageval")
+			val := rapid.SampledFrom([]string{"0", "1", "10", "007", "-3", "+5", "abc", "9223372036854775808", " 5", "1e3", "20.0", "-0.0", "1712.5", "0x10", "1_000", "٣"}).Draw(t, "pageval")
 
 			if rapid.IntRange(0, 3).Draw(t, "pagehostile") == 0 {
 				val = HostileString(t, "pagestr")
